@@ -55,7 +55,7 @@ def specific(module, r):
     if module == "Trace_SchemaGenM":
         r["props"] = r["props"] + ["zz"]
         return True
-    if module == "Trace_Registry":
+    if module in ("Trace_Registry", "Trace_LayeredRegistry"):
         for st in r.get("steps", []):
             if st.get("op") == "res":
                 st["fn"] = st["fn"] + 1
